@@ -15,7 +15,7 @@ pub const FLOORS: &[&str] = &[
     "neglit:BR", "neglit:LD", "neglit:JSR", "form:TRAP", "form:ALIAS", "form:NOT", "form:JMP",
     "form:JSRR", "form:RET", "form:PUSH", "form:POP", "form:RETS", "form:FILL", "form:BLKW",
     "form:STRINGZ", "orig:none", "orig:lt3000", "orig:3000", "orig:mid", "orig:ge8000",
-    "layout:wild", "layout:canonical", "accepted", "unencodable_rejected", "text_after_end:with_orig", "text_after_end:no_orig",
+    "layout:wild", "layout:canonical", "accepted", "unencodable_rejected", "text_after_end:with_orig", "text_after_end:no_orig", "big_blkw_count",
 ];
 
 pub fn sweep_stmts() -> Vec<Stmt> {
@@ -216,6 +216,8 @@ fn geom_case(i: u64, full: bool, rng: &mut Rng) -> (usize, i32) {
     }
 }
 
+const N_BIG_DIRECTIVES: u64 = 6;
+
 pub fn run(cfg: &Cfg, col: &mut Collector) {
     let plan = plan(cfg);
     let total = plan.n_sweep + plan.n_geom + plan.n_random;
@@ -261,6 +263,26 @@ fn one_case(plan: &Plan, seed: u64, i: u64) -> CaseOut {
     } else if i < plan.n_sweep + plan.n_geom {
         let (form, d) = geom_case(i - plan.n_sweep, plan.geom_full, &mut rng);
         (geometry_program(form, d, &mut rng), "geometry")
+    } else if i >= plan.n_sweep + plan.n_geom + plan.n_random - N_BIG_DIRECTIVES && !cfg!(miri) {
+        // data directives whose count or length is at or beyond 2^15 (where a signed 16-bit view of
+        // the operand turns negative), followed by statements whose position depends on them
+        let k = i - (plan.n_sweep + plan.n_geom + plan.n_random - N_BIG_DIRECTIVES);
+        let count = [32767, 32768, 40000, 32769, 50000, 65000][k as usize % 6];
+        let st = |label: Option<&str>, stmt: Stmt| Item::Stmt { label: label.map(|s| s.to_string()), stmt };
+        let mut items = Vec::new();
+        if count > 50000 {
+            items.push(Item::Orig(0x0010));
+        } else if k % 2 == 1 {
+            items.push(Item::Orig(0x0400));
+        }
+        items.push(st(None, Stmt::Ld(1, Target::Label("near".into()))));
+        items.push(st(Some("near"), Stmt::AddI(1, 1, 1)));
+        items.push(st(Some("buf"), Stmt::Blkw(count)));
+        items.push(st(None, Stmt::Fill(0x1234)));
+        items.push(st(Some("tail"), Stmt::Lea(2, Target::Label("tail".into()))));
+        items.push(st(None, Stmt::Alias(0x25)));
+        out.class("big_blkw_count");
+        (Program { items }, "big_directive")
     } else {
         let stack = rng.bool();
         let o = GenOpts {
